@@ -528,6 +528,34 @@ def r11_7(chk, so):
             oksign = oksign and good
     chk.ob("R11.7", SO, "decode_symm_str", "column k of the rotation row is set from the token containing axis letter k, "
            "negative exactly when that token contains '-<letter>'", oksign and nax == 3, found=f"{nax} axis stores")
+    # numeric terms keep their sign: the token reaches Fraction()/float() unstripped, or a helper that strips the sign puts it back on
+    # every return path
+    tstores = [e for e in dv.events if e.kind in ("store", "aug") and e.target.key().startswith(("<translation@", "translation[", "$translation"))
+               and e.target.as_atom() and e.target.as_atom()[0] == "sub"]
+    for e in tstores:
+        helpers = [a for a in find_atoms(e.value, lambda a: a[0] == "call" and isinstance(a[1], P) and (a[1].as_atom() or ("",))[0] == "name"
+                                         and a[1].as_atom()[1] in so.funcs)]
+        for h in helpers:
+            hq = h[1].as_atom()[1]
+            hv = so.ev(hq)
+            chk.saw(SO, hq)
+            par = hv.param_names[0]
+            stripped = [x for x in hv.events if x.kind == "assign" and x.value is not None and find_atoms(
+                x.value, lambda a: a[0] == "call" and call_name(a) in (".lstrip", ".strip", ".replace") and a[2] and "-" in (string_value(a[2][0]) or ""))]
+            signvars = {x.name for x in hv.events if x.kind == "assign" and x.value is not None
+                        and (".count('-')" in x.value.key() or ".startswith('-')" in x.value.key() or "'-'" in x.value.key())
+                        and x not in stripped}
+            bad = []
+            if stripped:
+                for r in hv.returns:
+                    if r.value is None:
+                        continue
+                    # the returned value is evaluated with the stripped text; it must also carry the sign taken before stripping
+                    k = r.value.key()
+                    if not (".count('-')" in k or ".startswith('-')" in k or any(f"<{sv}@" in k or f"${sv}" in k for sv in signvars)):
+                        bad.append(f"line {r.lineno}: return {str(r.value)[:80]}")
+            chk.ob("R11.7", SO, hq, "a numeric term keeps its sign: when the parser strips leading signs from the text, every return multiplies the sign back in",
+                   not bad, node=so.funcs[hq], fingerprint=f"term-sign:{hq}", expected="sign * value on every path (or an unstripped Fraction(text))", found=bad[:2])
     from ..symex import obj_init
     wrap = any(e.kind == "assign" and e.name == "translation" and obj_init(e.value).as_atom()
                and obj_init(e.value).as_atom()[0] == "bin" and obj_init(e.value).as_atom()[1] == "Mod"
